@@ -179,7 +179,7 @@ PROPS = {
     },
     'C17': {
         'rule': 'cells (N, degree, k, closed): single generated cells incl. the invalid-argument classes, and sweep cases that enumerate the whole box 3<=N<=16, 2<=d<=N, 1<=k<=4, open/closed (952 cells) on a generated trajectory (consecutive relative rotation < pi); non-trivial: >= 2 windows and degree >= 3',
-        'assumptions': ASSUME_ORACLE + ['AddressSanitizer build over an exact-size heap trajectory: reading anything but its elements is reported; ASAN hard_rss_limit_mb=4000 and the per-shard timeout bound non-termination (a process killed by either is reported as a violation of C17, whose statement includes termination)'],
+        'assumptions': ASSUME_ORACLE + ['AddressSanitizer build over an exact-size heap trajectory: reading anything but its elements is reported; ASAN hard_rss_limit_mb=4000 bounds runaway allocation (a harness process killed by it is reported as a violation of C17, whose statement includes termination); a shard that merely exceeds its wall-clock limit is inconclusive'],
         'stages': [
             {'src': 'C17.cpp', 'configs': ['SE2d', 'SO3d', 'SE3d', 'R3d', 'SE2f', 'SO3f'], 'tag': '-asan',
              'defs': ['-fsanitize=address,undefined', '-fno-sanitize-recover=undefined', '-fno-omit-frame-pointer'],
